@@ -590,16 +590,17 @@ package core
 //@ spec unread(k *Keys) []byte = k.buf + instream()[inpos():]
 
 //@ func (*Keys).ReadKey
-//@   props C05 C01
+//@   props C05 C01 C18
 //@   terminates
 //@   requires k != nil && Stdin != nil && !indead() && 0 <= inpos() && inpos() <= len(instream()) && !k.waiting && len(k.macroKeys) == 0 && noreports()
 //@   assigns k.keysOnce, k.reading, k.mutex, k.matched, k.macroKeys, k.buf, inpos(), indead()
 //@   ensures [returns-a-valid-rune] validrune(result0)
-//@   ensures [uses-buffered-keys-first] old(len(k.buf)) > 0 ==> inpos() == old(inpos())
-//@   ensures [consumes-exactly-one-character] old(len(unread(k))) > 0 && old(firstw(unread(k))) <= old(len(unread(k))) ==> unread(k) == old(unread(k))[old(firstw(unread(k))):]
-//@   ensures [returns-that-character] old(len(k.buf)) == 0 && old(inpos()) < len(instream()) && instream()[old(inpos())] < 128 && 0 <= instream()[old(inpos())] ==> result0 == instream()[old(inpos())]
-//@   ensures [returns-buffered-character] old(len(k.buf)) > 0 && old(k.buf[0]) < 128 ==> result0 == old(k.buf[0])
+//@   ensures @C05 @C01 [uses-buffered-keys-first] old(len(k.buf)) > 0 ==> inpos() == old(inpos())
+//@   ensures @C05 @C01 [consumes-exactly-one-character] old(len(unread(k))) > 0 && old(firstw(unread(k))) <= old(len(unread(k))) ==> unread(k) == old(unread(k))[old(firstw(unread(k))):]
+//@   ensures @C05 @C01 [returns-that-character] old(len(k.buf)) == 0 && old(inpos()) < len(instream()) && instream()[old(inpos())] < 128 && 0 <= instream()[old(inpos())] ==> result0 == instream()[old(inpos())]
+//@   ensures @C05 @C01 [returns-buffered-character] old(len(k.buf)) > 0 && old(k.buf[0]) < 128 ==> result0 == old(k.buf[0])
 //@   ensures [abort-when-input-ends] old(inpos()) >= len(instream()) ==> result1
+//@   ensures @C18 [argument-key-is-recorded] old(inpos()) < len(instream()) ==> k.matched == old(k.matched) + unit(result0)
 
 // ---------------------------------------------------------------------------------------
 // Word motions (C06: movements never edit)
